@@ -43,7 +43,7 @@ COMPONENTS = {
     "stub_or_harness": ["FaultyReader/FaultyWriter proxies", "frame wrappers", "reference interpreter (expected mode per operation)", "spec/value/fault generators"],
 }
 FAULT_KINDS = ["writer_exception", "writer_cancel", "reader_exception", "reader_cancel", "invalid_object", "hostile_bytes_error"]
-PROBES = ["packet_write_method", "fault_at_first_call", "fault_at_last_call", "fault_in_nested_frame", "fault_three_frames_deep",
+PROBES = ["bytes_compared_with_reference", "wire_differs_otherwise", "packet_write_method", "fault_at_first_call", "fault_at_last_call", "fault_in_nested_frame", "fault_three_frames_deep",
           "entry_mode_true_on_class_with_chunked", "fault_on_add_byte", "fault_on_next_chunk", "unaligned", "aligned",
           "serialize_failed_value_skipped", "nested_frames_checked"]
 
@@ -162,6 +162,21 @@ class Runner:
         log = list(proxy.sim_log)
         if raised is not None and raised != "StepCap" and direction == "deserialize":
             res.count("fault.hostile_bytes_error")
+        # oracle 4 (the "consequently" half, on the bytes): what was written differs from the reference bytes ONLY in
+        # y-diaeresis <-> 'y', i.e. something was sanitised that should not have been or the other way round.  Any other
+        # difference is a wire-format matter (property C02), counted but not judged here.
+        if direction == "serialize" and raised is None and getattr(model_ops, "out", None) is not None:
+            real = bytes(proxy.to_bytearray())
+            want = model_ops.out
+            res.count("probe.bytes_compared_with_reference")
+            if real != want:
+                if len(real) == len(want) and real.replace(b"\xff", b"y") == want.replace(b"\xff", b"y"):
+                    at = next(i for i, (a, b) in enumerate(zip(real, want)) if a != b)
+                    return self.fail("sanitised-bytes", direction,
+                                     f"{cls_name}.serialize (entry mode {entry}) wrote {real.hex()}; the declaration prescribes "
+                                     f"{want.hex()} - byte {at} is {'un' if real[at] == 0xFF else ''}sanitised against it",
+                                     dict(case, fault_at=None))
+                res.count("probe.wire_differs_otherwise")
         # oracle 3: the mode in force at each primitive operation
         if model_ops is not None:
             kinds_real = [k for k, _ in log]
@@ -284,9 +299,17 @@ def execute(plan, env):
     return res
 
 
+class _Ops(list):
+    """the reference operation list, carrying the reference bytes (or None) as an attribute"""
+    out = None
+
+
 def _model_write_ops(te, value, entry):
     try:
-        return write_walk(te.spec, value, entry).ops
+        walk = write_walk(te.spec, value, entry, emit=True)
+        ops = _Ops(walk.ops)
+        ops.out = bytes(walk.out) if walk.out is not None else None
+        return ops
     except Exception:
         return None
 
